@@ -223,6 +223,12 @@ func (h *Harness) One(cs Case) {
 		}
 		return
 	}
+	if cs.Cmd == "@child" {
+		if cs.Child != nil {
+			h.childOne(cs)
+		}
+		return
+	}
 	pl := cs.payload()
 	envNtx := -1
 	authGot := "0"
@@ -274,11 +280,14 @@ func (h *Harness) One(cs Case) {
 		if o.Panic != "" {
 			what += "handler panics (" + o.Panic + " in " + o.Where + ")"
 		}
-		if len(o.Locks) > 0 {
+		if len(o.Locks) > 0 && !o.Hang {
 			what += " locks still held after return: " + strings.Join(o.Locks, ",")
 		}
 		if o.Hang {
-			what += fmt.Sprintf(" handler does not return (watchdog after %.0f ms)", o.Ms)
+			what += fmt.Sprintf("handler does not return (watchdog after %.0f ms); locks held while it is stuck: %s", o.Ms, strings.Join(o.Locks, ","))
+			if cs.slow() {
+				what += fmt.Sprintf(" [peer that does not read its socket: %d message(s) before this one, %d unsent bytes preset]", len(cs.Seq)+cs.Rep, maxInt(cs.sbfill(), 0))
+			}
 		} else if o.Ms > 4000 {
 			what += fmt.Sprintf(" handler ran %.0f ms", o.Ms)
 		}
@@ -292,6 +301,14 @@ func (h *Harness) One(cs Case) {
 		return
 	}
 	r.Hit("real:ban=" + o.Ban)
+
+	// ---- 1b. a peer that does not read: the only things that may happen when a reply does not fit are
+	//          the ban SendBufferOverflow, or nothing queued at all (no model of the send path: the
+	//          predicate is evaluated on the real connection state)
+	if cs.slow() {
+		h.slowVerdict(cs, o, replay)
+		return
+	}
 
 	// ---- 2. the model
 	if cs.Cmd == "@wire" {
@@ -380,6 +397,45 @@ func (h *Harness) One(cs Case) {
 		}
 	}
 	r.TieOK()
+}
+
+// slowVerdict: what the send path must have done for a peer that does not read.
+func (h *Harness) slowVerdict(cs Case, o Obs, replay map[string]interface{}) {
+	r := h.r
+	st := h.rn.lastState
+	r.Hit("slow:ban=" + o.Ban)
+	if st.SentBytes < 0 || st.SentBytes >= network.SendBufSize {
+		r.TieFail("slow:"+cs.Cmd, fmt.Sprintf("send buffer accounting out of range: %d bytes queued", st.SentBytes), replay)
+		return
+	}
+	if fill := cs.sbfill(); fill >= 0 && cs.Cmd == "ping" && !cs.has("nover") && cs.Rep == 0 && len(cs.Seq) == 0 {
+		// the pong is as long as the ping: the outcome is known exactly
+		need := len(cs.payload()) + 24
+		if network.SendBufSize-fill <= need {
+			if o.Ban != "SendBufferOverflow" || st.SentBytes != fill {
+				r.TieFail("slow:ping", fmt.Sprintf("a pong of %d bytes does not fit behind %d queued bytes: expected ban SendBufferOverflow and nothing queued, got ban=%q queued=%d", need, fill, o.Ban, st.SentBytes), replay)
+				return
+			}
+			r.Hit("slow:overflow-branch")
+		} else if o.Ban != "" || st.SentBytes != fill+need {
+			r.TieFail("slow:ping", fmt.Sprintf("a pong of %d bytes fits behind %d queued bytes: expected it queued, got ban=%q queued=%d", need, fill, o.Ban, st.SentBytes), replay)
+			return
+		}
+	} else if o.Ban == "SendBufferOverflow" {
+		r.Hit("slow:overflow-branch")
+	}
+	if cs.Rep > 0 && o.Ban != "SendBufferOverflow" && !cs.has("nover") && cs.Cmd == "ping" {
+		r.TieFail("slow:history", fmt.Sprintf("%d pings of %d bytes to a peer that does not read did not end in SendBufferOverflow (ban=%q, %d bytes queued)", cs.Rep+1, len(cs.payload()), o.Ban, st.SentBytes), replay)
+		return
+	}
+	r.TieOK()
+}
+
+func maxInt(a, b int) int {
+	if a > b {
+		return a
+	}
+	return b
 }
 
 func clip(s string) string {
@@ -545,7 +601,12 @@ func (h *Harness) compareWire(cs Case, o Obs, replay map[string]interface{}) {
 }
 
 func main() {
-	if os.Getenv("C18_CHILD") != "" {
+	switch os.Getenv("C18_CHILD") {
+	case "":
+	case "blocks":
+		childBlocksMain()
+		return
+	default:
 		childMain()
 		return
 	}
@@ -601,6 +662,9 @@ func main() {
 		h.finish("replay of one recorded case", "replay", false)
 	}
 
+	// 0. block parsing in a child process: a nil dereference in one of BuildTxList's worker goroutines
+	//    kills the whole process, no recover() reaches it - it can only be observed from outside
+	h.One(Case{Cmd: "@child", Note: "child", Child: &ChildSpec{Seed: r.Rng.Fork().U64(), Blocks: r.N(14, 120), Only: -1}})
 	// 1. corpus (edge inputs + the witnesses of the seven repaired defects)
 	for _, cs := range Corpus(e) {
 		h.One(cs)
@@ -626,6 +690,8 @@ func main() {
 	h.boundaries(gen)
 	// 5. addr / getaddr against a peers database that is at its record limit
 	h.fullDB(gen, r.N(400, 6000))
+	// 5b. a peer that sends requests but does not read the replies (send buffer driven to its limit)
+	h.slowReaders(gen, r.N(500, 6000), r.N(3, 12))
 	// 6. a connection's thread against inv routing and statistics, in a child process
 	for i := 0; i < r.N(1, 3); i++ {
 		h.One(Case{Cmd: "@conc", Note: "conc", Conc: &ConcSpec{Seed: gen.g.U64(), Rounds: r.N(200000, 1500000)}})
